@@ -5,6 +5,7 @@
 package harness
 
 import (
+	"crypto/tls"
 	"encoding/hex"
 	"encoding/json"
 	"fmt"
@@ -190,6 +191,9 @@ type Req struct {
 	Target string `json:"target,omitempty"`
 	// Proto is "" (HTTP/1.1), "1.0" or "2".
 	Proto string `json:"proto,omitempty"`
+	// Host is the request's Host ("" means server.example); TLS marks an https request.
+	Host string `json:"host,omitempty"`
+	TLS  bool   `json:"tls,omitempty"`
 }
 
 func (r Req) Get(key string) ([]Val, bool) {
@@ -203,7 +207,7 @@ func (r Req) Get(key string) ([]Val, bool) {
 
 // With returns a copy of r in which key is set to vals (appended if absent).
 func (r Req) With(key string, vals ...string) Req {
-	out := Req{Method: r.Method, Target: r.Target, Proto: r.Proto}
+	out := Req{Method: r.Method, Target: r.Target, Proto: r.Proto, Host: r.Host, TLS: r.TLS}
 	done := false
 	for _, h := range r.Hdr {
 		if h.Key == key {
@@ -220,7 +224,7 @@ func (r Req) With(key string, vals ...string) Req {
 }
 
 func (r Req) Without(key string) Req {
-	out := Req{Method: r.Method, Target: r.Target, Proto: r.Proto}
+	out := Req{Method: r.Method, Target: r.Target, Proto: r.Proto, Host: r.Host, TLS: r.TLS}
 	for _, h := range r.Hdr {
 		if h.Key != key {
 			out.Hdr = append(out.Hdr, h)
@@ -252,6 +256,12 @@ func (r Req) HTTP() *http.Request {
 			hr.URL, hr.RequestURI = u, r.Target
 		}
 	}
+	if r.Host != "" {
+		hr.Host = r.Host
+	}
+	if r.TLS {
+		hr.TLS = &tls.ConnectionState{}
+	}
 	switch r.Proto {
 	case "1.0":
 		hr.Proto, hr.ProtoMajor, hr.ProtoMinor = "HTTP/1.0", 1, 0
@@ -269,6 +279,12 @@ func (r Req) Brief() string {
 	}
 	if r.Proto != "" {
 		b.WriteString(" HTTP/" + r.Proto)
+	}
+	if r.Host != "" {
+		b.WriteString(" host=" + r.Host)
+	}
+	if r.TLS {
+		b.WriteString(" tls")
 	}
 	for _, h := range r.Hdr {
 		fmt.Fprintf(&b, " %s=%s", h.Key, briefVals(h.Vals))
